@@ -586,6 +586,113 @@ fn misuse_judge_wrapper(scn: &Scenario, res: &ExecResult, b: Option<&ExecResult>
     misuse_judge(scn, res, b)
 }
 
+/// Misuse of a SyncTestSession: input for an unknown handle, advancing with an input missing.
+fn synctest_misuse_part(rep: &mut Report) {
+    use ggrs::{GgrsRequest, InputStatus};
+    let mut n = 0u64;
+    let mut fps = HashSet::new();
+    for players in 1..=3usize {
+        for cd in [0usize, 2, 4] {
+            for delay in [0usize, 2] {
+                // baseline trace
+                let run = |misuse_at: Option<(i32, u8)>| -> Result<(Vec<String>, Vec<String>), String> {
+                    ggrs::verif_hooks::reset(1_000_000, 7, 1);
+                    let mut sess = SessionBuilder::<CfgR>::new()
+                        .with_num_players(players)
+                        .map_err(|e| e.to_string())?
+                        .with_max_prediction_window(8)
+                        .with_check_distance(cd)
+                        .with_input_delay(delay)
+                        .start_synctest_session()
+                        .map_err(|e| e.to_string())?;
+                    let mut game = GameSt { frame: 0, hash: INITIAL_HASH };
+                    let mut trace = Vec::new();
+                    let mut errs = Vec::new();
+                    for call in 0..24 {
+                        let f = sess.current_frame();
+                        if let Some((at, kind)) = misuse_at {
+                            if at == call {
+                                let r = catch_unwind(AssertUnwindSafe(|| match kind {
+                                    0 => sess.add_local_input(players, 9).map(|_| Vec::new()),
+                                    1 => sess.add_local_input(players + 7, 9).map(|_| Vec::new()),
+                                    _ => {
+                                        // all inputs but the last one, then advance
+                                        for p in 0..players.saturating_sub(1) {
+                                            sess.add_local_input(p, Program::Changing.value(p, f)).unwrap();
+                                        }
+                                        sess.advance_frame()
+                                    }
+                                }));
+                                match r {
+                                    Err(p) => return Err(format!("misuse kind {kind} at call {call} panicked: {}", crate::world::panic_msg(p))),
+                                    Ok(Ok(_)) => errs.push(format!("misuse kind {kind} at call {call} returned Ok")),
+                                    Ok(Err(GgrsError::InvalidRequest { .. })) => {}
+                                    Ok(Err(e)) => errs.push(format!("misuse kind {kind} at call {call} returned {e:?} instead of InvalidRequest")),
+                                }
+                            }
+                        }
+                        for p in 0..players {
+                            sess.add_local_input(p, Program::Changing.value(p, f)).map_err(|e| e.to_string())?;
+                        }
+                        let reqs = sess.advance_frame().map_err(|e| format!("advance_frame at call {call}: {e}"))?;
+                        for rq in reqs {
+                            match rq {
+                                GgrsRequest::SaveGameState { cell, frame } => {
+                                    trace.push(format!("save {frame}"));
+                                    cell.save(frame, Some(game), Some(u128::from(game.hash)));
+                                }
+                                GgrsRequest::LoadGameState { cell, frame } => {
+                                    trace.push(format!("load {frame}"));
+                                    game = cell.load().ok_or("empty cell")?;
+                                }
+                                GgrsRequest::AdvanceFrame { inputs } => {
+                                    trace.push(format!("advance {:?}", inputs.iter().map(|x| (x.0, x.1 == InputStatus::Confirmed)).collect::<Vec<_>>()));
+                                    game = game_step(game, &inputs);
+                                }
+                            }
+                        }
+                    }
+                    Ok((trace, errs))
+                };
+                let base = match run(None) {
+                    Ok(b) => b.0,
+                    Err(e) => {
+                        rep.machinery.push(format!("synctest baseline failed: {e}"));
+                        continue;
+                    }
+                };
+                for at in 0..24 {
+                    for kind in 0..3u8 {
+                        if kind == 2 && players == 1 {
+                            // with one player "all but the last input" is no input at all: still a misuse
+                        }
+                        n += 1;
+                        let case = json!({"players": players, "check_distance": cd, "delay": delay, "misuse_at_call": at, "kind": kind});
+                        let mut h = 0xcbf2_9ce4_8422_2325u64;
+                        crate::types::fnv(&mut h, case.to_string().as_bytes());
+                        fps.insert(h);
+                        match run(Some((at, kind))) {
+                            Err(e) => rep.add_finding(Finding { prop: "C16".into(), kind: "misuse-panics".into(), detail: format!("synctest {case}: {e}"), class: "synctest-misuse".into(), replay: json!({"engine": "synctest-misuse", "case": case}) }),
+                            Ok((trace, errs)) => {
+                                for e in errs {
+                                    rep.add_finding(Finding { prop: "C16".into(), kind: "misuse-wrong-result".into(), detail: format!("synctest {case}: {e}"), class: "synctest-misuse".into(), replay: json!({"engine": "synctest-misuse", "case": case}) });
+                                }
+                                if trace != base {
+                                    rep.add_finding(Finding { prop: "C16".into(), kind: "misuse-has-effect".into(), detail: format!("synctest {case}: the request lists after the rejected call differ from the run without it"), class: "synctest-misuse".into(), replay: json!({"engine": "synctest-misuse", "case": case}) });
+                                }
+                            }
+                        }
+                    }
+                }
+            }
+        }
+    }
+    rep.evaluations += n;
+    rep.nontrivial.extend(fps.iter().copied());
+    rep.fingerprints.extend(fps.iter().copied());
+    rep.parts.push(json!({"part": "SyncTestSession misuse: input for an unknown handle / advancing with an input missing, inserted at every call", "runs": n}));
+}
+
 pub fn c16() -> i32 {
     let mut rep = Report::new("C16", "model_checking");
     rep.rule = "word sweep: every sequence of builder calls over a 48-call alphabet up to length 3 (quick) / 4 (thorough), each followed by each of the three start_* calls, against a reference validity model; every accepted session is driven for 24 calls; run-time misuse: one (thorough: two) rejected call(s) inserted at every round of valid runs, differential against the run without them; distinct = distinct outcome classes / distinct misuse scenarios".to_owned();
@@ -593,6 +700,7 @@ pub fn c16() -> i32 {
     let max_len = if rep.thorough() { 4 } else { 3 };
     builder_sweep(&mut rep, max_len);
     misuse_part(&mut rep);
+    synctest_misuse_part(&mut rep);
     rep.states = rep.fingerprints.len() as u64;
     rep.finish()
 }
